@@ -1,4 +1,4 @@
-\* low-priority signal / path sources (C03, C13): their events never trigger an invocation by themselves and ride along - with the userdata of their own registration - with the next normal-priority event of the module; bounded batch queue
+\* task sources with a pool of one thread (C03, C04, C06): a second task waits in the pool queue; it starts when the first returns, runs as well when the library waits for its tasks, is discarded when the loop stops
 CONSTANTS
   Mods = {"A", "B"}
   Order <- Order2
@@ -11,23 +11,23 @@ CONSTANTS
   MaxPay = 1
   Cap = 2
   MaxNest = 1
-  Ops = {"CtxDeregister", "DropRef", "Dispatch", "CtxQuit", "SrcRegister", "SrcDeregister", "SgnRaise", "PathTouch", "ModStop", "ModPause", "ModResume"}
-  CbOps = {}
+  Ops = {"CtxDeregister", "DropRef", "Dispatch", "CtxQuit", "SrcRegister", "SrcDeregister", "TaskFinish", "ModPause", "ModResume", "ModStop", "ModStart", "ModDeregister"}
+  CbOps = {"ModStop", "SrcRegister", "ModPause"}
   EvalVals = {TRUE}
   Prios = {"N"}
   BatchSizes = {}
   UnstashNs = {}
   HandlerIds = {}
-  Kinds = {"sgn", "path"}
+  Kinds = {"task"}
   Keys = {1}
-  SrcOpts <- Opts_lowprio
-  EvKinds = {"sgn", "path"}
+  SrcOpts <- Opts_plain
+  EvKinds = {"task"}
   MaxBatch = 2
   Errnos = {}
   TbVals = {}
   TickVals = {}
-  Targets = {"A"}
-  SubTargets = {"A"}
+  Targets = {"A", "B"}
+  SubTargets = {"A", "B"}
   AutoVals = {}
   SubOneshot = {FALSE}
   Senders = {}
@@ -35,10 +35,9 @@ CONSTANTS
   ForeignOps = {}
   MaxRefs = 1
   MaxHeld = 0
-  PoolSize = 16
+  PoolSize = 1
   Setup = "loop2"
 INIT Init
 NEXT Next
 CHECK_DEADLOCK FALSE
-CONSTRAINT BqBound
 INVARIANTS TypeOK C01_RunningCount C01_NoHandlerUnlessRunning C07_NoCtxNoModules C02_AutoFree C02_CopyAccounting C02_NoMailUnlessActive C13_ClearedOnStop C09_KeyedSet C09_DroppedOnStop C20_RegisteredOpen C04_NoOrphanTask C03_PendingHasSource
